@@ -1,11 +1,13 @@
 import CashewsVerif.Model.TxCtx
-/- Nested transaction blocks join the outermost one: erasing every inner `enter … exit` pair changes nothing. -/
+/- Nested transaction blocks join the outermost one: erasing every inner `enter … exit` pair changes nothing —
+for blocks opened on context objects of their own and for blocks that re-enter a shared context object, to any depth. -/
 namespace CashewsVerif
 
 /-- erase the inner blocks of a program (`d` = number of blocks currently open) -/
 def flatten (d : Nat) : List Ev → List Ev
   | [] => []
   | .enter m :: es => if d = 0 then .enter m :: flatten 1 es else flatten (d + 1) es
+  | .enterObj o m :: es => if d = 0 then .enterObj o m :: flatten 1 es else flatten (d + 1) es
   | .exit x :: es => if d ≤ 1 then .exit x :: flatten 0 es else flatten (d - 1) es
   | .cmd op :: es => .cmd op :: flatten d es
   | .rollback :: es => .rollback :: flatten d es
@@ -14,104 +16,366 @@ def flatten (d : Nat) : List Ev → List Ev
 /-- the answers of everything that is not a block boundary -/
 def cmdOuts : List Ev → List Out → List Out
   | .enter _ :: es, _ :: os => cmdOuts es os
+  | .enterObj _ _ :: es, _ :: os => cmdOuts es os
   | .exit _ :: es, _ :: os => cmdOuts es os
   | _ :: es, o :: os => o :: cmdOuts es os
   | _, _ => []
 
-/-- the nested run (`c`, `d` blocks open) and the flattened run (`c'`, at most one block open) agree on
-everything but the stack of open blocks -/
-structure NestRel (d : Nat) (c c' : Ctx) : Prop where
+/-- `true` iff the program opens blocks only on context objects of their own (`async with cache.transaction(m):`
+written out at every block, or the decorator form) -/
+def sharedFree : List Ev → Bool
+  | [] => true
+  | .enterObj _ _ :: _ => false
+  | _ :: es => sharedFree es
+
+/-- the open blocks after a program (syntactic) -/
+def nestAfter : Nest → List Ev → Nest
+  | n, [] => n
+  | n, .enter _ :: es => nestAfter (n.push none) es
+  | n, .enterObj o _ :: es => nestAfter (n.push (some o)) es
+  | n, .exit _ :: es => nestAfter n.pop es
+  | n, .cmd _ :: es => nestAfter n es
+  | n, .rollback :: es => nestAfter n es
+  | n, .commit :: es => nestAfter n es
+
+/-- the frame of an inner block / of the outermost block opened on the given kind of object -/
+def innerFrame : Option Nat → Frame
+  | none => .fresh true
+  | some o => .shared o
+
+def botFrame : Option Nat → Frame
+  | none => .fresh false
+  | some o => .shared o
+
+/-- no shared object is in use -/
+def Ctx.objsIdle (c : Ctx) : Prop := ∀ o, c.objs o = ⟨false, 0⟩
+
+/-- the nested run (`c`, open blocks as recorded by `n`) and the flattened run (`c'`, at most one block open)
+agree on everything but the stack of open blocks and the `_inner` counters: in the nested run the counter of
+every shared object is the number of its open inner blocks, and `_tx` is set exactly on the owner -/
+structure NestRel (n : Nest) (c c' : Ctx) : Prop where
   st : c.st = c'.st
   inTx : c.inTx = c'.inTx
   nextId : c.nextId = c'.nextId
-  zero : d = 0 → c.inTx = false ∧ c.frames = [] ∧ c'.frames = []
-  pos : d > 0 → c.inTx = true ∧ c.frames = List.replicate (d - 1) true ++ [false] ∧ c'.frames = [false]
+  zero : n.owner = none → n.inner = [] ∧ c.inTx = false ∧ c.frames = [] ∧ c'.frames = [] ∧ c.objsIdle ∧ c'.objsIdle
+  pos : ∀ x, n.owner = some x →
+    c.inTx = true ∧ c.frames = n.inner.map innerFrame ++ [botFrame x] ∧ c'.frames = [botFrame x] ∧
+    (∀ o, c.objs o = ⟨decide (x = some o), n.inner.count (some o)⟩ ∧ c'.objs o = ⟨decide (x = some o), 0⟩)
 
-theorem nest_run (es : List Ev) : ∀ (d : Nat) (c c' : Ctx), NestRel d c c' →
-    ∃ d', NestRel d' (c.run es).1 (c'.run (flatten d es)).1 ∧
-      cmdOuts es (c.run es).2 = cmdOuts (flatten d es) (c'.run (flatten d es)).2 := by
+theorem Ctx.run_cons (c : Ctx) (e : Ev) (es : List Ev) :
+    c.run (e :: es) = (((c.step e).1.run es).1, (c.step e).2 :: ((c.step e).1.run es).2) := rfl
+
+theorem Nest.depth_zero {n : Nest} (h : n.owner = none) : n.depth = 0 := by
+  unfold Nest.depth; rw [h]
+
+theorem Nest.depth_pos {n : Nest} {x} (h : n.owner = some x) : n.depth = n.inner.length + 1 := by
+  unfold Nest.depth; rw [h]
+
+/-! one lemma per kind of step -/
+
+/-- opening the outermost block: both runs start a transaction -/
+theorem nest_enter_zero {n : Nest} {c c' : Ctx} (h : NestRel n c c') (h0 : n.owner = none)
+    (e : Ev) (x : Option Nat) (m : TxMode)
+    (he : (x = none ∧ e = .enter m) ∨ (∃ o, x = some o ∧ e = .enterObj o m)) :
+    NestRel (n.push x) (c.step e).1 (c'.step e).1 := by
+  obtain ⟨hi, hin, hf, hf', hid, hid'⟩ := h.zero h0
+  have hin' : c'.inTx = false := by rw [← h.inTx]; exact hin
+  have hp : n.push x = ⟨some x, []⟩ := by unfold Nest.push; rw [h0]
+  rw [hp]
+  rcases he with ⟨rfl, rfl⟩ | ⟨o, rfl, rfl⟩
+  · simp only [Ctx.step, hin, hin', Bool.false_eq_true, if_false]
+    refine ⟨by simp [h.st, h.nextId], rfl, by simp [h.nextId], by simp, ?_⟩
+    intro x hx
+    simp only [Option.some.injEq] at hx
+    subst hx
+    refine ⟨rfl, by simp [hf, botFrame], by simp [hf', botFrame], ?_⟩
+    intro o
+    exact ⟨by simp [hid o], by simp [hid' o]⟩
+  · simp only [Ctx.step, hin, hin', Bool.false_eq_true, if_false]
+    refine ⟨by simp [h.st, h.nextId], rfl, by simp [h.nextId], by simp, ?_⟩
+    intro x hx
+    simp only [Option.some.injEq] at hx
+    subst hx
+    refine ⟨rfl, by simp [hf, botFrame], by simp [hf', botFrame], ?_⟩
+    intro o'
+    by_cases hoo : o' = o
+    · subst hoo; simp [Ctx.setObj, hid o', hid' o']
+    · have hne : ¬ o = o' := fun hh => hoo hh.symm
+      simp [Ctx.setObj, hoo, hne, hid o', hid' o']
+
+/-- opening an inner block: the nested run pushes a frame and counts it, the flattened run does nothing -/
+theorem nest_enter_pos {n : Nest} {c c' : Ctx} (h : NestRel n c c') {y : Option Nat} (hy : n.owner = some y)
+    (e : Ev) (x : Option Nat) (m : TxMode)
+    (he : (x = none ∧ e = .enter m) ∨ (∃ o, x = some o ∧ e = .enterObj o m)) :
+    NestRel (n.push x) (c.step e).1 c' := by
+  obtain ⟨hin, hf, hf', hobj⟩ := h.pos y hy
+  have hp : n.push x = ⟨some y, x :: n.inner⟩ := by unfold Nest.push; rw [hy]
+  rw [hp]
+  rcases he with ⟨rfl, rfl⟩ | ⟨o, rfl, rfl⟩
+  · simp only [Ctx.step, hin, if_true]
+    refine ⟨h.st, by simp [← h.inTx, hin], h.nextId, by simp, ?_⟩
+    intro x hx
+    simp only [Option.some.injEq] at hx
+    subst hx
+    refine ⟨rfl, by simp [hf, innerFrame], hf', ?_⟩
+    intro o
+    obtain ⟨a, b⟩ := hobj o
+    exact ⟨by simp [a], b⟩
+  · simp only [Ctx.step, hin, if_true]
+    refine ⟨h.st, by simp [← h.inTx, hin], h.nextId, by simp, ?_⟩
+    intro x hx
+    simp only [Option.some.injEq] at hx
+    subst hx
+    refine ⟨rfl, by simp [hf, innerFrame], hf', ?_⟩
+    intro o'
+    obtain ⟨a, b⟩ := hobj o'
+    by_cases hoo : o' = o
+    · subst hoo
+      obtain ⟨a, b⟩ := hobj o'
+      exact ⟨by simp [Ctx.setObj, a], b⟩
+    · have hne : ¬ o = o' := fun hh => hoo hh.symm
+      exact ⟨by simp [Ctx.setObj, hoo, a, hne], b⟩
+
+/-- leaving an inner block: the nested run pops a frame and uncounts it without ending the transaction -/
+theorem nest_exit_inner {n : Nest} {c c' : Ctx} (h : NestRel n c c') {y : Option Nat} (hy : n.owner = some y)
+    {z : Option Nat} {r : List (Option Nat)} (hz : n.inner = z :: r) (exc : Bool) :
+    NestRel n.pop (c.step (.exit exc)).1 c' := by
+  obtain ⟨hin, hf, hf', hobj⟩ := h.pos y hy
+  have hp : n.pop = ⟨some y, r⟩ := by unfold Nest.pop; rw [hz]; simp [hy]
+  rw [hp]
+  rw [hz] at hf hobj
+  cases z with
+  | none =>
+    simp only [List.map_cons, innerFrame, List.cons_append] at hf
+    simp only [Ctx.step, hf]
+    refine ⟨h.st, by simp [← h.inTx, hin], h.nextId, by simp, ?_⟩
+    intro x hx
+    simp only [Option.some.injEq] at hx
+    subst hx
+    refine ⟨hin, rfl, hf', ?_⟩
+    intro o
+    obtain ⟨a, b⟩ := hobj o
+    exact ⟨by simpa [List.count_cons] using a, b⟩
+  | some o =>
+    simp only [List.map_cons, innerFrame, List.cons_append] at hf
+    have hcnt : (c.objs o).inner = r.count (some o) + 1 := by
+      rw [(hobj o).1]; simp
+    have hne0 : (c.objs o).inner ≠ 0 := by omega
+    simp only [Ctx.step, hf, hne0, ne_eq, not_false_eq_true, if_true]
+    refine ⟨h.st, by simp [← h.inTx, hin], h.nextId, by simp, ?_⟩
+    intro x hx
+    simp only [Option.some.injEq] at hx
+    subst hx
+    refine ⟨hin, rfl, hf', ?_⟩
+    intro o'
+    obtain ⟨a, b⟩ := hobj o'
+    by_cases hoo : o' = o
+    · subst hoo
+      refine ⟨?_, b⟩
+      simp only [Ctx.setObj, if_true, hcnt, Nat.add_sub_cancel]
+      rw [a]
+    · have hne : ¬ o = o' := fun hh => hoo hh.symm
+      refine ⟨?_, b⟩
+      simp only [Ctx.setObj, hoo, if_false]
+      simpa [List.count_cons, hne] using a
+
+/-- leaving the outermost block: both runs end the transaction the same way -/
+theorem nest_exit_bot {n : Nest} {c c' : Ctx} (h : NestRel n c c') {y : Option Nat} (hy : n.owner = some y)
+    (hz : n.inner = []) (exc : Bool) :
+    NestRel n.pop (c.step (.exit exc)).1 (c'.step (.exit exc)).1 := by
+  obtain ⟨hin, hf, hf', hobj⟩ := h.pos y hy
+  have hp : n.pop = ⟨none, []⟩ := by unfold Nest.pop; rw [hz]
+  rw [hp]
+  rw [hz] at hf hobj
+  simp only [List.map_nil, List.nil_append, List.count_nil] at hf hobj
+  cases y with
+  | none =>
+    simp only [botFrame] at hf hf'
+    simp only [Ctx.step, hf, hf']
+    refine ⟨by simp [h.st], rfl, h.nextId, ?_, by simp⟩
+    intro _
+    refine ⟨rfl, rfl, rfl, rfl, ?_, ?_⟩
+    · intro o; simpa using (hobj o).1
+    · intro o; simpa using (hobj o).2
+  | some o =>
+    simp only [botFrame] at hf hf'
+    obtain ⟨a, b⟩ := hobj o
+    simp only [decide_true] at a b
+    have h1 : ¬ (c.objs o).inner ≠ 0 := by simp [a]
+    have h2 : ¬ (c'.objs o).inner ≠ 0 := by simp [b]
+    have h3 : (!(c.objs o).tx) = false := by simp [a]
+    have h4 : (!(c'.objs o).tx) = false := by simp [b]
+    simp only [Ctx.step, hf, hf', h1, h2, h3, h4, Bool.false_eq_true, if_false]
+    refine ⟨by simp [h.st], rfl, h.nextId, ?_, by simp⟩
+    intro _
+    refine ⟨rfl, rfl, rfl, rfl, ?_, ?_⟩
+    · intro o'
+      by_cases hoo : o' = o
+      · subst hoo; simp [Ctx.setObj, a]
+      · have hne : ¬ o = o' := fun hh => hoo hh.symm
+        simp only [Ctx.setObj, hoo, if_false]
+        simpa [hne] using (hobj o').1
+    · intro o'
+      by_cases hoo : o' = o
+      · subst hoo; simp [Ctx.setObj, b]
+      · have hne : ¬ o = o' := fun hh => hoo hh.symm
+        simp only [Ctx.setObj, hoo, if_false]
+        simpa [hne] using (hobj o').2
+
+/-- replacing the transaction state on both sides keeps the relation -/
+theorem NestRel.with_st {n : Nest} {c c' : Ctx} (h : NestRel n c c') (s : TxSt) :
+    NestRel n { c with st := s } { c' with st := s } :=
+  ⟨rfl, h.inTx, h.nextId, h.zero, h.pos⟩
+
+/-- a step that is not a block boundary: same step, same answer in both runs -/
+theorem nest_other {n : Nest} {c c' : Ctx} (h : NestRel n c c') (e : Ev)
+    (he : (∃ op, e = .cmd op) ∨ e = .rollback ∨ e = .commit) :
+    NestRel n (c.step e).1 (c'.step e).1 ∧ (c.step e).2 = (c'.step e).2 := by
+  have hfe : c.frames.isEmpty = c'.frames.isEmpty := by
+    cases ho : n.owner with
+    | none => obtain ⟨_, _, a, b, _⟩ := h.zero ho; rw [a, b]
+    | some x => obtain ⟨_, a, b, _⟩ := h.pos x ho; rw [a, b]; simp
+  have hst := h.st
+  have hin := h.inTx
+  rcases he with ⟨op, rfl⟩ | rfl | rfl
+  · cases hi : c.inTx with
+    | true =>
+      have hi' : c'.inTx = true := by rw [← hin]; exact hi
+      simp only [Ctx.step]
+      rw [if_pos hi, if_pos hi', hst]
+      exact ⟨h.with_st _, rfl⟩
+    | false =>
+      have hi' : c'.inTx = false := by rw [← hin]; exact hi
+      simp only [Ctx.step]
+      rw [if_neg (by simp [hi]), if_neg (by simp [hi']), hst]
+      exact ⟨h.with_st _, rfl⟩
+  · cases hi : c.inTx with
+    | true =>
+      have hi' : c'.inTx = true := by rw [← hin]; exact hi
+      simp only [Ctx.step]
+      rw [if_pos hi, if_pos hi', hst]
+      exact ⟨h.with_st _, rfl⟩
+    | false =>
+      have hi' : c'.inTx = false := by rw [← hin]; exact hi
+      simp only [Ctx.step, hi, hi', Bool.false_eq_true, if_false, ← hfe]
+      cases c.frames.isEmpty <;> exact ⟨h, rfl⟩
+  · cases hi : c.inTx with
+    | true =>
+      have hi' : c'.inTx = true := by rw [← hin]; exact hi
+      simp only [Ctx.step]
+      rw [if_pos hi, if_pos hi', hst]
+      exact ⟨h.with_st _, rfl⟩
+    | false =>
+      have hi' : c'.inTx = false := by rw [← hin]; exact hi
+      simp only [Ctx.step, hi, hi', Bool.false_eq_true, if_false, ← hfe]
+      cases c.frames.isEmpty <;> exact ⟨h, rfl⟩
+
+theorem nest_run (es : List Ev) : ∀ (n : Nest) (c c' : Ctx), NestRel n c c' →
+    NestRel (nestAfter n es) (c.run es).1 (c'.run (flatten n.depth es)).1 ∧
+      cmdOuts es (c.run es).2 = cmdOuts (flatten n.depth es) (c'.run (flatten n.depth es)).2 := by
   induction es with
-  | nil => intro d c c' h; exact ⟨d, h, rfl⟩
+  | nil => intro n c c' h; exact ⟨h, rfl⟩
   | cons e es ih =>
-    intro d c c' h
-    obtain ⟨st, it, fr, ni⟩ := c
-    obtain ⟨st', it', fr', ni'⟩ := c'
-    obtain ⟨hst, hin, hni, hz, hp⟩ := h
-    simp only at hst hin hni hz hp
-    subst hst hin hni
+    intro n c c' h
     cases e with
     | enter m =>
-      by_cases hd : d = 0
-      · obtain ⟨h1, h2, h3⟩ := hz hd
-        subst h1 h2 h3 hd
-        simp only [flatten, if_true, Ctx.run, Ctx.step, Bool.false_eq_true, if_false, cmdOuts]
-        exact ih 1 _ _ ⟨rfl, rfl, rfl, by simp, fun _ => ⟨rfl, rfl, rfl⟩⟩
-      · have hpos : d > 0 := Nat.pos_of_ne_zero hd
-        obtain ⟨h1, h2, h3⟩ := hp hpos
-        subst h1 h2 h3
-        simp only [flatten, hd, if_false, Ctx.run, Ctx.step, if_true, cmdOuts]
-        refine ih (d + 1) _ _ ⟨rfl, rfl, rfl, by omega, fun _ => ⟨rfl, ?_, rfl⟩⟩
-        simp only [Nat.add_sub_cancel]
-        have : d = (d - 1) + 1 := by omega
-        rw [this, List.replicate_succ]; simp
+      cases ho : n.owner with
+      | none =>
+        have hd := Nest.depth_zero ho
+        have hr := nest_enter_zero h ho (.enter m) none m (Or.inl ⟨rfl, rfl⟩)
+        have hd' : (n.push none).depth = 1 := by simp [Nest.push, ho, Nest.depth]
+        obtain ⟨hr', ho'⟩ := ih _ _ _ hr
+        rw [hd'] at hr' ho'
+        refine ⟨?_, ?_⟩
+        · simpa only [hd, flatten, if_true, Ctx.run_cons, nestAfter] using hr'
+        · simpa only [hd, flatten, if_true, Ctx.run_cons, cmdOuts] using ho'
+      | some y =>
+        have hd := Nest.depth_pos ho
+        have hr := nest_enter_pos h ho (.enter m) none m (Or.inl ⟨rfl, rfl⟩)
+        have hd' : (n.push none).depth = n.depth + 1 := by simp [Nest.push, ho, Nest.depth]
+        obtain ⟨hr', ho'⟩ := ih _ _ _ hr
+        rw [hd'] at hr' ho'
+        have hne : ¬ n.depth = 0 := by omega
+        refine ⟨?_, ?_⟩
+        · simpa only [flatten, hne, if_false, Ctx.run_cons, nestAfter] using hr'
+        · simpa only [flatten, hne, if_false, Ctx.run_cons, cmdOuts] using ho'
+    | enterObj o m =>
+      cases ho : n.owner with
+      | none =>
+        have hd := Nest.depth_zero ho
+        have hr := nest_enter_zero h ho (.enterObj o m) (some o) m (Or.inr ⟨o, rfl, rfl⟩)
+        have hd' : (n.push (some o)).depth = 1 := by simp [Nest.push, ho, Nest.depth]
+        obtain ⟨hr', ho'⟩ := ih _ _ _ hr
+        rw [hd'] at hr' ho'
+        refine ⟨?_, ?_⟩
+        · simpa only [hd, flatten, if_true, Ctx.run_cons, nestAfter] using hr'
+        · simpa only [hd, flatten, if_true, Ctx.run_cons, cmdOuts] using ho'
+      | some y =>
+        have hd := Nest.depth_pos ho
+        have hr := nest_enter_pos h ho (.enterObj o m) (some o) m (Or.inr ⟨o, rfl, rfl⟩)
+        have hd' : (n.push (some o)).depth = n.depth + 1 := by simp [Nest.push, ho, Nest.depth]
+        obtain ⟨hr', ho'⟩ := ih _ _ _ hr
+        rw [hd'] at hr' ho'
+        have hne : ¬ n.depth = 0 := by omega
+        refine ⟨?_, ?_⟩
+        · simpa only [flatten, hne, if_false, Ctx.run_cons, nestAfter] using hr'
+        · simpa only [flatten, hne, if_false, Ctx.run_cons, cmdOuts] using ho'
     | exit x =>
-      by_cases hd : d = 0
-      · obtain ⟨h1, h2, h3⟩ := hz hd
-        subst h1 h2 h3 hd
-        simp only [flatten, Nat.zero_le, if_true, Ctx.run, Ctx.step, cmdOuts]
-        exact ih 0 _ _ ⟨rfl, rfl, rfl, fun _ => ⟨rfl, rfl, rfl⟩, by omega⟩
-      · by_cases hd1 : d = 1
-        · obtain ⟨h1, h2, h3⟩ := hp (by omega)
-          subst hd1
-          simp only [Nat.sub_self, List.replicate_zero, List.nil_append] at h2
-          subst h1 h2 h3
-          simp only [flatten, Nat.le_refl, if_true, Ctx.run, Ctx.step, cmdOuts]
-          exact ih 0 _ _ ⟨rfl, rfl, rfl, fun _ => ⟨rfl, rfl, rfl⟩, by omega⟩
-        · obtain ⟨h1, h2, h3⟩ := hp (by omega)
-          have hle : ¬ d ≤ 1 := by omega
-          have hrep : List.replicate (d - 1) true = true :: List.replicate (d - 2) true := by
-            have : d - 1 = (d - 2) + 1 := by omega
-            rw [this, List.replicate_succ]
-          rw [hrep] at h2
-          subst h1 h2 h3
-          simp only [flatten, hle, if_false, Ctx.run, Ctx.step, List.cons_append, cmdOuts]
-          refine ih (d - 1) _ _ ⟨rfl, rfl, rfl, by omega, fun _ => ⟨rfl, ?_, rfl⟩⟩
-          have : d - 1 - 1 = d - 2 := by omega
-          rw [this]
+      cases ho : n.owner with
+      | none =>
+        obtain ⟨hi, _, hf, hf', _, _⟩ := h.zero ho
+        have hd := Nest.depth_zero ho
+        have hp : n.pop = n := by
+          unfold Nest.pop; rw [hi]; cases n; simp_all
+        have hs : (c.step (.exit x)) = (c, .err) := by simp [Ctx.step, hf]
+        have hs' : (c'.step (.exit x)) = (c', .err) := by simp [Ctx.step, hf']
+        obtain ⟨hr', ho'⟩ := ih _ _ _ h
+        rw [hd] at hr' ho'
+        refine ⟨?_, ?_⟩
+        · simpa only [hd, flatten, Nat.zero_le, if_true, Ctx.run_cons, hs, hs', nestAfter, hp] using hr'
+        · simpa only [hd, flatten, Nat.zero_le, if_true, Ctx.run_cons, hs, hs', cmdOuts] using ho'
+      | some y =>
+        have hd := Nest.depth_pos ho
+        cases hz : n.inner with
+        | nil =>
+          have hr := nest_exit_bot h ho hz x
+          have hd1 : n.depth = 1 := by rw [hd, hz]; rfl
+          have hd' : n.pop.depth = 0 := by simp [Nest.pop, hz, Nest.depth]
+          obtain ⟨hr', ho'⟩ := ih _ _ _ hr
+          rw [hd'] at hr' ho'
+          refine ⟨?_, ?_⟩
+          · simpa only [hd1, flatten, Nat.le_refl, if_true, Ctx.run_cons, nestAfter] using hr'
+          · simpa only [hd1, flatten, Nat.le_refl, if_true, Ctx.run_cons, cmdOuts] using ho'
+        | cons z r =>
+          have hr := nest_exit_inner h ho hz x
+          have hd2 : n.depth = r.length + 2 := by rw [hd, hz]; rfl
+          have hd' : n.pop.depth = n.depth - 1 := by simp [Nest.pop, hz, Nest.depth, ho]
+          obtain ⟨hr', ho'⟩ := ih _ _ _ hr
+          rw [hd'] at hr' ho'
+          have hle : ¬ n.depth ≤ 1 := by omega
+          refine ⟨?_, ?_⟩
+          · simpa only [flatten, hle, if_false, Ctx.run_cons, nestAfter] using hr'
+          · simpa only [flatten, hle, if_false, Ctx.run_cons, cmdOuts] using ho'
     | cmd op =>
-      simp only [flatten, Ctx.run, Ctx.step, cmdOuts]
-      cases it with
-      | true =>
-        simp only [if_true]
-        obtain ⟨d', hr, ho⟩ := ih d ⟨(st.step op).1, true, fr, ni⟩ ⟨(st.step op).1, true, fr', ni⟩ ⟨rfl, rfl, rfl, hz, hp⟩
-        exact ⟨d', hr, by rw [ho]⟩
-      | false =>
-        simp only [Bool.false_eq_true, if_false]
-        obtain ⟨d', hr, ho⟩ := ih d ⟨{ st with b := (st.b.step op).1 }, false, fr, ni⟩
-          ⟨{ st with b := (st.b.step op).1 }, false, fr', ni⟩ ⟨rfl, rfl, rfl, hz, hp⟩
-        exact ⟨d', hr, by rw [ho]⟩
+      obtain ⟨hr, hout⟩ := nest_other h (.cmd op) (Or.inl ⟨op, rfl⟩)
+      obtain ⟨hr', ho'⟩ := ih _ _ _ hr
+      refine ⟨by simpa only [flatten, Ctx.run_cons, nestAfter] using hr', ?_⟩
+      simp only [flatten, Ctx.run_cons, cmdOuts, hout, ho']
     | rollback =>
-      simp only [flatten, Ctx.run, Ctx.step, cmdOuts]
-      cases it with
-      | true =>
-        simp only [if_true]
-        obtain ⟨d', hr, ho⟩ := ih d ⟨st.rollback, true, fr, ni⟩ ⟨st.rollback, true, fr', ni⟩ ⟨rfl, rfl, rfl, hz, hp⟩
-        exact ⟨d', hr, by rw [ho]⟩
-      | false =>
-        simp only [Bool.false_eq_true, if_false]
-        obtain ⟨d', hr, ho⟩ := ih d ⟨st, false, fr, ni⟩ ⟨st, false, fr', ni⟩ ⟨rfl, rfl, rfl, hz, hp⟩
-        exact ⟨d', hr, by rw [ho]⟩
+      obtain ⟨hr, hout⟩ := nest_other h .rollback (Or.inr (Or.inl rfl))
+      obtain ⟨hr', ho'⟩ := ih _ _ _ hr
+      refine ⟨by simpa only [flatten, Ctx.run_cons, nestAfter] using hr', ?_⟩
+      simp only [flatten, Ctx.run_cons, cmdOuts, hout, ho']
     | commit =>
-      simp only [flatten, Ctx.run, Ctx.step, cmdOuts]
-      cases it with
-      | true =>
-        simp only [if_true]
-        obtain ⟨d', hr, ho⟩ := ih d ⟨st.commit, true, fr, ni⟩ ⟨st.commit, true, fr', ni⟩ ⟨rfl, rfl, rfl, hz, hp⟩
-        exact ⟨d', hr, by rw [ho]⟩
-      | false =>
-        simp only [Bool.false_eq_true, if_false]
-        obtain ⟨d', hr, ho⟩ := ih d ⟨st, false, fr, ni⟩ ⟨st, false, fr', ni⟩ ⟨rfl, rfl, rfl, hz, hp⟩
-        exact ⟨d', hr, by rw [ho]⟩
+      obtain ⟨hr, hout⟩ := nest_other h .commit (Or.inr (Or.inr rfl))
+      obtain ⟨hr', ho'⟩ := ih _ _ _ hr
+      refine ⟨by simpa only [flatten, Ctx.run_cons, nestAfter] using hr', ?_⟩
+      simp only [flatten, Ctx.run_cons, cmdOuts, hout, ho']
+
+/-- a clean context is related to itself -/
+theorem nestRel_init (c : Ctx) (h1 : c.inTx = false) (h2 : c.frames = []) (h3 : c.objsIdle) :
+    NestRel Nest.empty c c :=
+  ⟨rfl, rfl, rfl, fun _ => ⟨rfl, h1, h2, h2, h3, h3⟩, fun x hx => by simp [Nest.empty] at hx⟩
 
 /-- commands inside an open transaction are `TxSt.run` -/
 theorem Ctx.run_cmds (ops : List Op) : ∀ (c : Ctx), c.inTx = true →
@@ -120,10 +384,10 @@ theorem Ctx.run_cmds (ops : List Op) : ∀ (c : Ctx), c.inTx = true →
   | nil => intro c _; rfl
   | cons op ops ih =>
     intro c h
-    obtain ⟨st, it, fr, ni⟩ := c
+    obtain ⟨st, it, fr, ni, ob⟩ := c
     simp only at h
     subst h
     simp only [List.map_cons, Ctx.run, Ctx.step, if_true, TxSt.run]
-    rw [ih ⟨(st.step op).1, true, fr, ni⟩ rfl]
+    rw [ih ⟨(st.step op).1, true, fr, ni, ob⟩ rfl]
 
 end CashewsVerif
